@@ -35,10 +35,28 @@ theorem flatL_evNodes (l : List MEv) : flatL (evNodes l) = l := by
   | nil => rfl
   | cons x l ih => simp [evNodes, flatL, Codec.Node.flat] at ih ⊢; exact ih
 
-theorem expL_evNodes (nS nM : Nat) (l : List MEv) : Codec.expL nS nM (evNodes l) = ticks nS nM l := by
+/-- events that fit mode `M` (and do not change it) -/
+theorem mokL_evNodes (M : Mode) (top : Bool) (l : List MEv) (h : ∀ x ∈ l, M.evOk x = true) : mokL M top (evNodes l) = true := by
   induction l with
   | nil => rfl
-  | cons x l ih => simp [evNodes, Codec.expL, Codec.Node.exp, ticks_cons] at ih ⊢; exact ih
+  | cons x l ih =>
+    have hx := h x (by simp)
+    simp only [evNodes, List.map_cons, mokL, Codec.Node.mok, Codec.Node.after, Mode.after_of_evOk hx, hx, Bool.true_or,
+      Bool.true_and]
+    exact ih (fun y hy => h y (by simp [hy]))
+
+theorem afterL_evNodes (M : Mode) (l : List MEv) (h : ∀ x ∈ l, M.evOk x = true) : afterL M (evNodes l) = M :=
+  afterL_of_mok (mokL_evNodes M false l h)
+
+theorem expL_evNodes (M : Mode) (nS nM : Nat) (l : List MEv) (h : ∀ x ∈ l, M.evOk x = true) :
+    Codec.expL M nS nM (evNodes l) = ticks M nS nM l := by
+  induction l with
+  | nil => rfl
+  | cons x l ih =>
+    have hx := h x (by simp)
+    have := ih (fun y hy => h y (by simp [hy]))
+    simp only [evNodes, List.map_cons, Codec.expL, Codec.Node.exp, Codec.Node.after, Mode.after_of_evOk hx, ticks_cons]
+    rw [← this]; rfl
 
 theorem linL_evNodes (l : List MEv) (h : ∀ x ∈ l, linEv x = true) : linL (evNodes l) = true := by
   induction l with
@@ -52,10 +70,10 @@ theorem brkOkL_evNodes (top : Bool) (l : List MEv) : brkOkL top (evNodes l) = tr
   | nil => rfl
   | cons x l ih => simp only [evNodes, List.map_cons, brkOkL, Codec.Node.brkOk, Bool.true_and]; exact ih
 
-theorem callsOkL_evNodes (seq : List Nat) (base mj : Nat) (l : List MEv) : callsOkL seq base mj (evNodes l) := by
-  induction l with
+theorem callsOkL_evNodes (M : Mode) (seq : List Nat) (base mj : Nat) (l : List MEv) : callsOkL M seq base mj (evNodes l) := by
+  induction l generalizing M with
   | nil => simp [evNodes, callsOkL]
-  | cons x l ih => simp only [evNodes, List.map_cons, callsOkL, Codec.Node.callsOk, true_and]; exact ih
+  | cons x l ih => simp only [evNodes, List.map_cons, callsOkL, Codec.Node.callsOk, true_and]; exact ih _
 
 /-! ### append lemmas for the node predicates -/
 
@@ -64,11 +82,22 @@ theorem flatL_append (a b : List Codec.Node) : flatL (a ++ b) = flatL a ++ flatL
   | nil => rfl
   | cons x a ih => simp [flatL, ih]
 
-theorem expL_append (nS nM : Nat) (a b : List Codec.Node) :
-    Codec.expL nS nM (a ++ b) = Codec.expL nS nM a ++ Codec.expL nS nM b := by
-  induction a with
+theorem afterL_append (M : Mode) (a b : List Codec.Node) : afterL M (a ++ b) = afterL (afterL M a) b := by
+  induction a generalizing M with
   | nil => rfl
-  | cons x a ih => simp [Codec.expL, ih]
+  | cons x a ih => simp [afterL, ih]
+
+theorem expL_append (M : Mode) (nS nM : Nat) (a b : List Codec.Node) :
+    Codec.expL M nS nM (a ++ b) = Codec.expL M nS nM a ++ Codec.expL (afterL M a) nS nM b := by
+  induction a generalizing M with
+  | nil => rfl
+  | cons x a ih => simp [Codec.expL, afterL, ih]
+
+theorem mokL_append (M : Mode) (top : Bool) (a b : List Codec.Node) :
+    mokL M top (a ++ b) = (mokL M top a && mokL (afterL M a) top b) := by
+  induction a generalizing M with
+  | nil => rfl
+  | cons x a ih => simp [mokL, afterL, ih, Bool.and_assoc]
 
 theorem linL_append (a b : List Codec.Node) : linL (a ++ b) = (linL a && linL b) := by
   induction a with
@@ -80,11 +109,11 @@ theorem brkOkL_append (top : Bool) (a b : List Codec.Node) : brkOkL top (a ++ b)
   | nil => rfl
   | cons x a ih => simp [brkOkL, ih, Bool.and_assoc]
 
-theorem callsOkL_append {seq : List Nat} {base mj : Nat} {a b : List Codec.Node} (ha : callsOkL seq base mj a)
-    (hb : callsOkL seq base mj b) : callsOkL seq base mj (a ++ b) := by
-  induction a with
+theorem callsOkL_append {M : Mode} {seq : List Nat} {base mj : Nat} {a b : List Codec.Node}
+    (ha : callsOkL M seq base mj a) (hb : callsOkL (afterL M a) seq base mj b) : callsOkL M seq base mj (a ++ b) := by
+  induction a generalizing M with
   | nil => exact hb
-  | cons x a ih => simp only [List.cons_append, callsOkL] at ha ⊢; exact ⟨ha.1, ih ha.2⟩
+  | cons x a ih => simp only [List.cons_append, callsOkL, afterL] at ha hb ⊢; exact ⟨ha.1, ih ha.2 hb⟩
 
 mutual
 theorem brkOk_mono : ∀ (t : Codec.Node), t.brkOk false = true → t.brkOk true = true
@@ -102,7 +131,7 @@ end
 
 /-! ### the pending rest -/
 
-theorem ticks_flushL (nS nM r : Nat) : ticks nS nM (flushL r) = List.replicate r Tk.off := by
+theorem ticks_flushL (M : Mode) (nS nM r : Nat) : ticks M nS nM (flushL r) = List.replicate r Tk.off := by
   unfold flushL
   split
   · simp [ticks, evTicks]
@@ -119,6 +148,14 @@ theorem lin_flushL (r : Nat) (hr : r < 65536) : ∀ x ∈ flushL r, linEv x = tr
     have h1 : 1 ≤ r := by omega
     have h2 : r ≤ 65535 := by omega
     simp [linEv, h1, h2]
+  · simp at hx
+
+theorem evOk_flushL (M : Mode) (r : Nat) : ∀ x ∈ flushL r, M.evOk x = true := by
+  intro x hx
+  unfold flushL at hx
+  split at hx
+  · simp at hx; subst hx
+    simp [Mode.evOk, mds_REST, mds_TIE, mds_FLG]
   · simp at hx
 
 theorem flushL_zero : flushL 0 = [] := rfl
@@ -158,36 +195,203 @@ def Timed (e : Event) : Prop :=
   e.on ≤ 65535 ∧ e.off ≤ 65535 ∧ (e.type ≠ ev_NOTE → e.type ≠ ev_TIE → e.on = 0) ∧
   (e.type ≠ ev_NOTE → e.type ≠ ev_TIE → e.type ≠ ev_REST → e.off = 0) ∧ (e.type = ev_NOTE → 1 ≤ e.on)
 
-def itTicks (pf : Timeline.Platform) (i : Item) : List Tk :=
-  if i.ev.type = ev_NOTE then Timeline.noteTicks i.ev.param i.src.on i.src.off
+/-- the head of the drum routine a note in drum mode names (`Timeline.ticksOf`) -/
+def rhead (song : Song) (pf : Timeline.Platform) (p : Int) : Option (List Tk × Int) :=
+  match callK song limit 1 (trackIdOfParam p) with
+  | .ok ritems => Timeline.routineHead pf ritems
+  | .error _ => none
+
+/-- ticks of one item in drum-mode state `dm`; `R` = the routine heads -/
+def itTicks (R : Int → Option (List Tk × Int)) (pf : Timeline.Platform) (dm : Bool) (i : Item) : List Tk :=
+  if i.ev.type = ev_NOTE then
+    (if dm = true then
+      (match R i.ev.param with
+       | some (c, n) => c ++ Timeline.noteTicks n i.src.on i.src.off
+       | none => [])
+     else Timeline.noteTicks i.ev.param i.src.on i.src.off)
   else if i.ev.type = ev_TIE then List.replicate i.src.on Tk.hold ++ List.replicate i.src.off Tk.off
   else if i.ev.type = ev_REST then List.replicate (i.src.on + i.src.off) Tk.off
+  else if i.ev.type = ev_DRUM_MODE then Timeline.cmdOf pf i.ev
   else Timeline.cmdOf pf i.ev ++ List.replicate (i.src.on + i.src.off) Tk.off
 
-def itemsTicks (pf : Timeline.Platform) (items : List Item) : List Tk := items.flatMap (itTicks pf)
+/-- ticks of a list of items in one drum-mode state -/
+def itemsTicks (R : Int → Option (List Tk × Int)) (pf : Timeline.Platform) (dm : Bool) (items : List Item) : List Tk :=
+  items.flatMap (itTicks R pf dm)
 
-theorem itemsTicks_append (pf : Timeline.Platform) (a b : List Item) :
-    itemsTicks pf (a ++ b) = itemsTicks pf a ++ itemsTicks pf b := by simp [itemsTicks]
+/-- ticks of a list of items, the drum-mode switches among them followed -/
+def ticksT (R : Int → Option (List Tk × Int)) (pf : Timeline.Platform) : Bool → List Item → List Tk
+  | _, [] => []
+  | dm, i :: is => itTicks R pf dm i ++ ticksT R pf (if i.ev.type = ev_DRUM_MODE then decide (i.ev.param ≠ 0) else dm) is
 
-theorem itemsTicks_cons (pf : Timeline.Platform) (a : Item) (b : List Item) :
-    itemsTicks pf (a :: b) = itTicks pf a ++ itemsTicks pf b := by simp [itemsTicks]
+theorem itemsTicks_append (R : Int → Option (List Tk × Int)) (pf : Timeline.Platform) (dm : Bool) (a b : List Item) :
+    itemsTicks R pf dm (a ++ b) = itemsTicks R pf dm a ++ itemsTicks R pf dm b := by simp [itemsTicks]
 
-theorem ticksOf_plain (song : Song) (pf : Timeline.Platform) : ∀ (items : List Item),
-    (∀ i ∈ items, i.ev.type ≠ ev_DRUM_MODE) → Timeline.ticksOf song pf false items = .ok (itemsTicks pf items)
-  | [], _ => rfl
-  | i :: is, h => by
-    have h1 : i.ev.type ≠ ev_DRUM_MODE := h i (by simp)
-    have ih := ticksOf_plain song pf is (fun j hj => h j (by simp [hj]))
-    rw [itemsTicks_cons]
-    unfold Timeline.ticksOf
-    simp only [Bool.false_eq_true, if_false]
+theorem itemsTicks_cons (R : Int → Option (List Tk × Int)) (pf : Timeline.Platform) (dm : Bool) (a : Item) (b : List Item) :
+    itemsTicks R pf dm (a :: b) = itTicks R pf dm a ++ itemsTicks R pf dm b := by simp [itemsTicks]
+
+theorem drumAt_const : ∀ (l : List Item), (∀ i ∈ l, i.ev.type ≠ ev_DRUM_MODE) → ∀ d, Timeline.drumAt d l = d
+  | [], _, _ => rfl
+  | i :: is, h, d => by
+    simp [Timeline.drumAt, h i (by simp), drumAt_const is (fun j hj => h j (by simp [hj]))]
+
+theorem drumAt_append (d : Bool) (a b : List Item) : Timeline.drumAt d (a ++ b) = Timeline.drumAt (Timeline.drumAt d a) b := by
+  induction a generalizing d with
+  | nil => rfl
+  | cons x a ih => simp [Timeline.drumAt, ih]
+
+theorem ticksT_append (R : Int → Option (List Tk × Int)) (pf : Timeline.Platform) (dm : Bool) (a b : List Item) :
+    ticksT R pf dm (a ++ b) = ticksT R pf dm a ++ ticksT R pf (Timeline.drumAt dm a) b := by
+  induction a generalizing dm with
+  | nil => rfl
+  | cons x a ih => simp [ticksT, Timeline.drumAt, ih]
+
+theorem ticksT_const (R : Int → Option (List Tk × Int)) (pf : Timeline.Platform) : ∀ (l : List Item) (dm : Bool),
+    (∀ i ∈ l, i.ev.type ≠ ev_DRUM_MODE) → ticksT R pf dm l = itemsTicks R pf dm l
+  | [], _, _ => rfl
+  | i :: is, dm, h => by
+    simp [ticksT, itemsTicks_cons, h i (by simp), ticksT_const R pf is dm (fun j hj => h j (by simp [hj]))]
+
+/-- `Timeline.ticksOf`, where it is defined -/
+theorem ticksOf_eq (song : Song) (pf : Timeline.Platform) : ∀ (items : List Item) (dm : Bool) (t : List Tk),
+    Timeline.ticksOf song pf dm items = .ok t → t = ticksT (rhead song pf) pf dm items
+  | [], _, t, h => by
+    simp only [Timeline.ticksOf, Except.ok.injEq] at h
+    subst h; rfl
+  | i :: is, dm, t, h => by
+    unfold Timeline.ticksOf at h
+    simp only at h
+    -- the tail, in whatever state
+    have tail : ∀ (tk : List Tk) (d' : Bool),
+        (match Timeline.ticksOf song pf d' is with
+          | .error x => (.error x : Except SErr (List Tk))
+          | .ok rest => .ok (tk ++ rest)) = .ok t → t = tk ++ ticksT (rhead song pf) pf d' is := by
+      intro tk d' h'
+      cases hr : Timeline.ticksOf song pf d' is with
+      | error x => rw [hr] at h'; cases h'
+      | ok rest =>
+        rw [hr] at h'
+        simp only [Except.ok.injEq] at h'
+        rw [← h', ticksOf_eq song pf is d' rest hr]
     by_cases t1 : i.ev.type = ev_NOTE
-    · simp +decide [t1, ih, itTicks]
-    · by_cases t2 : i.ev.type = ev_TIE
-      · simp +decide [t2, ih, itTicks]
-      · by_cases t3 : i.ev.type = ev_REST
-        · simp +decide [t3, ih, itTicks]
-        · simp +decide [t1, t2, t3, h1, ih, itTicks]
+    · have nd : ¬ i.ev.type = ev_DRUM_MODE := by rw [t1]; decide
+      rw [if_pos t1] at h
+      cases dm with
+      | false =>
+        rw [if_neg (by decide)] at h
+        have := tail _ _ h
+        rw [this]
+        simp only [ticksT, itTicks, if_pos t1, if_neg nd, Bool.false_eq_true, if_false]
+      | true =>
+        rw [if_pos rfl] at h
+        cases hc : callK song limit 1 (trackIdOfParam i.ev.param) with
+        | error x => rw [hc] at h; cases h
+        | ok ritems =>
+          rw [hc] at h
+          simp only at h
+          cases hh : Timeline.routineHead pf ritems with
+          | none => rw [hh] at h; cases h
+          | some p =>
+            obtain ⟨cmds, n⟩ := p
+            rw [hh] at h
+            have := tail _ _ h
+            rw [this]
+            have hR : rhead song pf i.ev.param = some (cmds, n) := by simp [rhead, hc, hh]
+            simp only [ticksT, itTicks, if_pos t1, if_neg nd, if_true, hR]
+    · rw [if_neg t1] at h
+      by_cases t2 : i.ev.type = ev_TIE
+      · have nd : ¬ i.ev.type = ev_DRUM_MODE := by rw [t2]; decide
+        rw [if_pos t2] at h
+        have := tail _ _ h
+        rw [this]
+        simp only [ticksT, itTicks, if_neg t1, if_pos t2, if_neg nd]
+      · rw [if_neg t2] at h
+        by_cases t3 : i.ev.type = ev_REST
+        · have nd : ¬ i.ev.type = ev_DRUM_MODE := by rw [t3]; decide
+          rw [if_pos t3] at h
+          have := tail _ _ h
+          rw [this]
+          simp only [ticksT, itTicks, if_neg t1, if_neg t2, if_pos t3, if_neg nd]
+        · rw [if_neg t3] at h
+          by_cases t4 : i.ev.type = ev_DRUM_MODE
+          · rw [if_pos t4] at h
+            have := tail _ _ h
+            rw [this]
+            simp only [ticksT, itTicks, if_neg t1, if_neg t2, if_neg t3, if_pos t4]
+          · rw [if_neg t4] at h
+            have := tail _ _ h
+            rw [this]
+            simp only [ticksT, itTicks, if_neg t1, if_neg t2, if_neg t3, if_neg t4]
+
+/-- the drum notes of a list of items (switches followed) name routines with a head -/
+def DefT (R : Int → Option (List Tk × Int)) : Bool → List Item → Prop
+  | _, [] => True
+  | dm, i :: is =>
+    (i.ev.type = ev_NOTE → dm = true → (R i.ev.param).isSome = true) ∧
+      DefT R (if i.ev.type = ev_DRUM_MODE then decide (i.ev.param ≠ 0) else dm) is
+
+theorem defT_append (R : Int → Option (List Tk × Int)) (dm : Bool) (a b : List Item) :
+    DefT R dm (a ++ b) ↔ DefT R dm a ∧ DefT R (Timeline.drumAt dm a) b := by
+  induction a generalizing dm with
+  | nil => simp [DefT, Timeline.drumAt]
+  | cons x a ih => simp [DefT, Timeline.drumAt, ih, and_assoc]
+
+/-- where `Timeline.ticksOf` is defined, every drum note has its routine head -/
+theorem ticksOf_def (song : Song) (pf : Timeline.Platform) : ∀ (items : List Item) (dm : Bool) (t : List Tk),
+    Timeline.ticksOf song pf dm items = .ok t → DefT (rhead song pf) dm items
+  | [], _, _, _ => trivial
+  | i :: is, dm, t, h => by
+    unfold Timeline.ticksOf at h
+    simp only at h
+    have tail : ∀ (tk : List Tk) (d' : Bool),
+        (match Timeline.ticksOf song pf d' is with
+          | .error x => (.error x : Except SErr (List Tk))
+          | .ok rest => .ok (tk ++ rest)) = .ok t → DefT (rhead song pf) d' is := by
+      intro tk d' h'
+      cases hr : Timeline.ticksOf song pf d' is with
+      | error x => rw [hr] at h'; cases h'
+      | ok rest => exact ticksOf_def song pf is d' rest hr
+    by_cases t1 : i.ev.type = ev_NOTE
+    · have nd : ¬ i.ev.type = ev_DRUM_MODE := by rw [t1]; decide
+      rw [if_pos t1] at h
+      cases dm with
+      | false =>
+        rw [if_neg (by decide)] at h
+        have := tail _ _ h
+        refine ⟨fun _ hh => (by cases hh), ?_⟩
+        rw [if_neg nd]; exact this
+      | true =>
+        rw [if_pos rfl] at h
+        cases hc : callK song limit 1 (trackIdOfParam i.ev.param) with
+        | error x => rw [hc] at h; cases h
+        | ok ritems =>
+          rw [hc] at h
+          simp only at h
+          cases hh : Timeline.routineHead pf ritems with
+          | none => rw [hh] at h; cases h
+          | some p =>
+            obtain ⟨cmds, n⟩ := p
+            rw [hh] at h
+            have := tail _ _ h
+            have hR : rhead song pf i.ev.param = some (cmds, n) := by simp [rhead, hc, hh]
+            refine ⟨fun _ _ => (by rw [hR]; rfl), ?_⟩
+            rw [if_neg nd]; exact this
+    · rw [if_neg t1] at h
+      refine ⟨fun hh => absurd hh t1, ?_⟩
+      by_cases t2 : i.ev.type = ev_TIE
+      · have nd : ¬ i.ev.type = ev_DRUM_MODE := by rw [t2]; decide
+        rw [if_pos t2] at h
+        rw [if_neg nd]; exact tail _ _ h
+      · rw [if_neg t2] at h
+        by_cases t3 : i.ev.type = ev_REST
+        · have nd : ¬ i.ev.type = ev_DRUM_MODE := by rw [t3]; decide
+          rw [if_pos t3] at h
+          rw [if_neg nd]; exact tail _ _ h
+        · rw [if_neg t3] at h
+          by_cases t4 : i.ev.type = ev_DRUM_MODE
+          · rw [if_pos t4] at h
+            rw [if_pos t4]; exact tail _ _ h
+          · rw [if_neg t4] at h
+            rw [if_neg t4]; exact tail _ _ h
 
 /-! ### one event -/
 
@@ -216,27 +420,63 @@ macro "cmd_case" fact:term : tactic => `(tactic| (
   subst h
   have hon : e.on = 0 := ht.2.2.1 (by rw [t]; decide) (by rw [t]; decide)
   have hoff : e.off = 0 := ht.2.2.2.1 (by rw [t]; decide) (by rw [t]; decide) (by rw [t]; decide)
-  refine ⟨fun x hx => by simp at hx; subst hx; rfl, ?_⟩
+  refine ⟨fun x hx => by simp at hx; subst hx; rfl,
+    fun x hx => by simp at hx; subst hx; simp +decide [Mode.evOk], ?_⟩
   have hf := $fact
   simp +decide [itTicks, item, Timeline.cmdOf, t, hon, hoff, mk, ticks, evTicks, isCmdOp, cmdArg, byteArgOps, wordArgOps,
     Timeline.maskTk, hf]))
 
+/-- what is known about the drum routines (`rt` = what the routine streams of the chunk play, `R` =
+the routine heads of the timeline): a note in drum mode that was given routine index `q` names a
+routine whose stream plays, up to masking, the head of the routine track, and ends with its note -/
+def DrumH (rt : Nat → Option (List Tk × Nat)) (R : Int → Option (List Tk × Int)) (m : List (Int × Nat)) : Prop :=
+  ∀ (e : Event) (k q : Nat), e.type = ev_NOTE → (subKey e.param true false, k) ∈ m →
+    (q : Int) = (if wrap16 (k : Int) < 0 then 0 else wrap16 (k : Int)) → q < 94 →
+    ∃ C n, rt q = some (C, n) ∧ R e.param = some (mk C, (n : Int))
+
 /-- what a leaf event that is not a rest pushes: events of the linear fragment that play the
 event's ticks (the off time becomes pending rest) -/
-theorem body_sem (nS nM : Nat) (pf : Timeline.Platform) (m : List (Int × Nat)) (e : Event) (hs : SimpleEv e)
-    (ht : Timed e) (hk : e.kind = .other) (hne : e.type ≠ ev_REST) {b : List MEv} (hb : Body m (tItem e e) b) :
-    (∀ x ∈ b, linEv x = true) ∧ mk (ticks nS nM b) ++ List.replicate e.off Tk.off = itTicks pf (item e) := by
+theorem body_sem (M : Mode) (nS nM : Nat) (R : Int → Option (List Tk × Int)) (pf : Timeline.Platform) (m : List (Int × Nat))
+    (hD : DrumH M.rt R m) (e : Event) (hs : SimpleEv e)
+    (ht : Timed e) (hk : e.kind = .other) (hne : e.type ≠ ev_REST) (hnd : e.type ≠ ev_DRUM_MODE) {b : List MEv}
+    (hb : Body m M.dm (tItem e e) b) :
+    (∀ x ∈ b, linEv x = true) ∧ (∀ x ∈ b, M.evOk x = true) ∧
+      mk (ticks M nS nM b) ++ List.replicate e.off Tk.off = itTicks R pf M.dm (item e) := by
   obtain ⟨k1, k2, k3, k4, k5⟩ := kind_other_types hk
   cases hb with
   | jump t _ => exact absurd t k5
+  | @dnote k q t hdm hmem hq hq94 =>
+    have t' : e.type = ev_NOTE := t
+    obtain ⟨C, n, hrt, hR⟩ := hD e k q t' hmem hq hq94
+    have hon1 := ht.2.2.2.2 t'
+    have ha : Mds.u16 (e.on : Int) = e.on := by rw [u16_nat']; have := ht.1; omega
+    show (∀ x ∈ [(⟨mds_NOTE + q, Mds.u16 (e.on : Int)⟩ : MEv)], _) ∧ _
+    rw [ha]
+    have h1 : mds_TIE ≤ mds_NOTE + q := by show 129 ≤ 130 + q; omega
+    have h2 : mds_NOTE + q < mds_SLR := by show 130 + q < 224; omega
+    have h0 : ¬ mds_NOTE + q = mds_REST := by show ¬ 130 + q = 128; omega
+    have h5 : mds_NOTE + q - mds_NOTE = q := by show 130 + q - 130 = q; omega
+    have h6 : mds_NOTE + q ≥ mds_NOTE := by omega
+    refine ⟨fun x hx => ?_, fun x hx => ?_, ?_⟩
+    · simp at hx; subst hx
+      have := ht.1
+      simp [linEv, h1, h2, hon1, this]
+    · simp at hx; subst hx
+      have hfl : ¬ mds_NOTE + q = mds_FLG := by show ¬ 130 + q = 236; omega
+      simp [Mode.evOk, Mode.okTy, hdm, h5, hrt, hfl]
+    · have h4 : ¬ e.on = 0 := by omega
+      have h7 : ¬ mds_NOTE + n = mds_TIE := by show ¬ 130 + n = 129; omega
+      have h8 : mds_NOTE + n - mds_NOTE = n := by show 130 + n - 130 = n; omega
+      simp [itTicks, item, t', hdm, hR, mk, ticks, evTicks, h0, h1, h2, Mode.nt, h6, h5, hrt, Codec.noteTicks, h7, h8,
+        Timeline.noteTicks, h4, Timeline.maskTk]
   | @ins ty i t hty =>
     have t' : e.type = ev_INS := t
     have hon : e.on = 0 := ht.2.2.1 (by rw [t']; decide) (by rw [t']; decide)
     have hoff : e.off = 0 := ht.2.2.2.1 (by rw [t']; decide) (by rw [t']; decide) (by rw [t']; decide)
     rcases hty with rfl | rfl
-    · refine ⟨fun x hx => by simp at hx; subst hx; rfl, ?_⟩
+    · refine ⟨fun x hx => by simp at hx; subst hx; rfl, fun x hx => by simp at hx; subst hx; simp +decide [Mode.evOk], ?_⟩
       simp +decide [itTicks, item, Timeline.cmdOf, t', hon, hoff, mk, ticks, evTicks, isCmdOp, cmdArg, Timeline.maskTk]
-    · refine ⟨fun x hx => by simp at hx; subst hx; rfl, ?_⟩
+    · refine ⟨fun x hx => by simp at hx; subst hx; rfl, fun x hx => by simp at hx; subst hx; simp +decide [Mode.evOk], ?_⟩
       simp +decide [itTicks, item, Timeline.cmdOf, t', hon, hoff, mk, ticks, evTicks, isCmdOp, cmdArg, Timeline.maskTk]
   | @det b h =>
     unfold detBody at h
@@ -247,32 +487,41 @@ theorem body_sem (nS nM : Nat) (pf : Timeline.Platform) (m : List (Int × Nat)) 
       subst h
       have ha : Mds.u16 (e.on : Int) = e.on := by rw [u16_nat']; have := ht.1; omega
       rw [ha]
-      refine ⟨fun x hx => ?_, ?_⟩
+      refine ⟨fun x hx => ?_, fun x hx => ?_, ?_⟩
       · simp at hx; subst hx
         have := ht.1
         by_cases h0 : e.on = 0
         · simp +decide [linEv, h0]
         · have h1 : 1 ≤ e.on := by omega
           simp +decide [linEv, h1, this]
-      · simp +decide [itTicks, item, t, mk, ticks, evTicks, Codec.noteTicks, Timeline.maskTk]
+      · simp at hx; subst hx
+        simp +decide [Mode.evOk, Mode.okTy_tie]
+      · simp +decide [itTicks, item, t, mk, ticks, evTicks, Mode.nt_tie, Codec.noteTicks, Timeline.maskTk]
     rw [if_neg t] at h
     by_cases t2 : e.type = ev_NOTE
-    · rw [if_pos t2, if_pos (hs.2.2.2.1 t2)] at h
+    · rw [if_pos t2] at h
+      by_cases hdm : M.dm = true
+      · rw [if_pos hdm] at h; cases h
+      rw [if_neg hdm, if_pos (hs.2.2.1 t2)] at h
+      have hdm' : M.dm = false := by simpa using hdm
       simp only [Option.some.injEq] at h
       subst h
-      obtain ⟨p0, p1⟩ := hs.2.2.2.1 t2
+      obtain ⟨p0, p1⟩ := hs.2.2.1 t2
       have hon1 := ht.2.2.2.2 t2
       have ha : Mds.u16 (e.on : Int) = e.on := by rw [u16_nat']; have := ht.1; omega
       rw [ha]
       obtain ⟨q, hq⟩ : ∃ q : Nat, q = e.param.toNat := ⟨_, rfl⟩
       have hq94 : q < 94 := by omega
       rw [← hq]
-      refine ⟨fun x hx => ?_, ?_⟩
+      refine ⟨fun x hx => ?_, fun x hx => ?_, ?_⟩
       · simp at hx; subst hx
         have h1 : mds_TIE ≤ mds_NOTE + q := by show 129 ≤ 130 + q; omega
         have h2 : mds_NOTE + q < mds_SLR := by show 130 + q < 224; omega
         have := ht.1
         simp [linEv, h1, h2, hon1, this]
+      · simp at hx; subst hx
+        have hfl : ¬ mds_NOTE + q = mds_FLG := by show ¬ 130 + q = 236; omega
+        simp [Mode.evOk, Mode.okTy, hdm', hfl]
       · have h0 : ¬ mds_NOTE + q = mds_REST := by show ¬ 130 + q = 128; omega
         have h1 : mds_TIE ≤ mds_NOTE + q ∧ mds_NOTE + q < mds_SLR := by
           constructor
@@ -281,8 +530,8 @@ theorem body_sem (nS nM : Nat) (pf : Timeline.Platform) (m : List (Int × Nat)) 
         have h3 : ¬ mds_NOTE + q = mds_TIE := by show ¬ 130 + q = 129; omega
         have h4 : ¬ e.on = 0 := by omega
         have h5 : mds_NOTE + q - mds_NOTE = q := by show 130 + q - 130 = q; omega
-        simp [itTicks, item, t2, mk, ticks, evTicks, h0, h1, Codec.noteTicks, h3, Timeline.noteTicks, h4, h5, ← hq,
-          Timeline.maskTk]
+        simp [itTicks, item, t2, hdm', mk, ticks, evTicks, h0, h1, Mode.nt, Codec.noteTicks, h3, Timeline.noteTicks, h4, h5,
+          ← hq, Timeline.maskTk]
     rw [if_neg t2, if_neg k1, if_neg k2, if_neg k3, if_neg k4, if_neg k5] at h
     by_cases t : e.type = ev_SLUR
     · cmd_case trivial
@@ -305,7 +554,8 @@ theorem body_sem (nS nM : Nat) (pf : Timeline.Platform) (m : List (Int × Nat)) 
         rcases t with t | t <;> (rw [t]; decide)
       have hon : e.on = 0 := ht.2.2.1 hnn.1 hnn.2.1
       have hoff : e.off = 0 := ht.2.2.2.1 hnn.1 hnn.2.1 hnn.2.2
-      refine ⟨fun x hx => by simp at hx; subst hx; rfl, ?_⟩
+      refine ⟨fun x hx => by simp at hx; subst hx; rfl,
+        fun x hx => by simp at hx; subst hx; simp +decide [Mode.evOk], ?_⟩
       have hf := u16_lo e.param
       rcases t with t | t <;>
         simp +decide [itTicks, item, Timeline.cmdOf, t, hon, hoff, mk, ticks, evTicks, isCmdOp, cmdArg, byteArgOps,
@@ -339,32 +589,34 @@ theorem body_sem (nS nM : Nat) (pf : Timeline.Platform) (m : List (Int × Nat)) 
     rw [if_neg t] at h
     have n12 := t; clear t
     by_cases t : e.type = ev_PAN_ENVELOPE
-    · have hp := hs.2.2.1 t
+    · have hp := hs.2.1 t
       rw [if_pos t, if_pos hp] at h
       simp only [Option.some.injEq] at h
       subst h
       have hon : e.on = 0 := ht.2.2.1 (by rw [t]; decide) (by rw [t]; decide)
       have hoff : e.off = 0 := ht.2.2.2.1 (by rw [t]; decide) (by rw [t]; decide) (by rw [t]; decide)
-      refine ⟨fun x hx => by simp at hx; subst hx; rfl, ?_⟩
+      refine ⟨fun x hx => by simp at hx; subst hx; rfl,
+        fun x hx => by simp at hx; subst hx; simp +decide [Mode.evOk], ?_⟩
       simp +decide [itTicks, item, Timeline.cmdOf, t, hon, hoff, mk, ticks, evTicks, isCmdOp, cmdArg, byteArgOps, wordArgOps,
         Timeline.maskTk, hp]
     rw [if_neg t] at h
     have n13 := t; clear t
     by_cases t : e.type = ev_PITCH_ENVELOPE
-    · have hp := hs.2.2.2.2 t
+    · have hp := hs.2.2.2 t
       rw [if_pos t, if_pos hp] at h
       simp only [Option.some.injEq] at h
       subst h
       have hon : e.on = 0 := ht.2.2.1 (by rw [t]; decide) (by rw [t]; decide)
       have hoff : e.off = 0 := ht.2.2.2.1 (by rw [t]; decide) (by rw [t]; decide) (by rw [t]; decide)
-      refine ⟨fun x hx => by simp at hx; subst hx; rfl, ?_⟩
+      refine ⟨fun x hx => by simp at hx; subst hx; rfl,
+        fun x hx => by simp at hx; subst hx; simp +decide [Mode.evOk], ?_⟩
       simp +decide [itTicks, item, Timeline.cmdOf, t, hon, hoff, mk, ticks, evTicks, isCmdOp, cmdArg, byteArgOps, wordArgOps,
         Timeline.maskTk, hp]
     rw [if_neg t] at h
     have n14 := t; clear t
     by_cases t : e.type = ev_PORTAMENTO
     · cmd_case (u16_lo e.param)
-    rw [if_neg t, if_neg hs.2.1] at h
+    rw [if_neg t, if_neg hnd] at h
     have n15 := t; clear t
     by_cases t : e.type = ev_TEMPO
     · cmd_case (u16_lo e.param)
@@ -373,30 +625,34 @@ theorem body_sem (nS nM : Nat) (pf : Timeline.Platform) (m : List (Int × Nat)) 
     subst h
     have hon : e.on = 0 := ht.2.2.1 t2 (by assumption)
     have hoff : e.off = 0 := ht.2.2.2.1 t2 (by assumption) hne
-    refine ⟨fun x hx => by simp at hx, ?_⟩
+    refine ⟨fun x hx => by simp at hx, fun x hx => by simp at hx, ?_⟩
     have d1 := hs.1
-    have d2 := hs.2.1
+    have d2 := hnd
     simp [itTicks, item, Timeline.cmdOf, hon, hoff, mk, ticks, *]
 
-theorem body_rest {m : List (Int × Nat)} {e : Event} (t : e.type = ev_REST) {b : List MEv} (hb : Body m (tItem e e) b) :
-    b = [] := by
+theorem body_rest {m : List (Int × Nat)} {d : Bool} {e : Event} (t : e.type = ev_REST) {b : List MEv}
+    (hb : Body m d (tItem e e) b) : b = [] := by
   cases hb with
   | jump t' _ => rw [show (tItem e e).ev.type = e.type from rfl, t] at t'; exact absurd t' (by decide)
   | ins t' _ => rw [show (tItem e e).ev.type = e.type from rfl, t] at t'; exact absurd t' (by decide)
+  | dnote t' _ _ _ _ => rw [show (tItem e e).ev.type = e.type from rfl, t] at t'; exact absurd t' (by decide)
   | det h =>
     unfold detBody at h
     simp +decide [t] at h
     exact h
 
-/-- **one leaf event** (not a call, not a bracket, not the loop point): what is flushed and pushed
-for it lies in the linear fragment and plays the pending rest that was flushed and the event's own
-ticks, up to the rest that is pending afterwards -/
-theorem leaf_sem (nS nM : Nat) (pf : Timeline.Platform) (m : List (Int × Nat)) (e : Event) (hs : SimpleEv e)
-    (ht : Timed e) (hk : e.kind = .other) (r : Nat) (hr : r < 65536) {b : List MEv} (hb : Body m (tItem e e) b) :
-    (∀ x ∈ (prepR r (tItem e e)).1 ++ b, linEv x = true) ∧ (prepR r (tItem e e)).2 < 65536 ∧
-    List.replicate r Tk.off ++ itTicks pf (item e) =
-      mk (ticks nS nM ((prepR r (tItem e e)).1 ++ b)) ++ List.replicate (prepR r (tItem e e)).2 Tk.off := by
-  refine ⟨?_, prepR_lt _ _, ?_⟩
+/-- **one leaf event** (not a call, not a bracket, not the loop point, not a drum-mode switch): what
+is flushed and pushed for it lies in the linear fragment, fits the mode, and plays the pending rest
+that was flushed and the event's own ticks, up to the rest that is pending afterwards -/
+theorem leaf_sem (M : Mode) (nS nM : Nat) (R : Int → Option (List Tk × Int)) (pf : Timeline.Platform)
+    (m : List (Int × Nat)) (hD : DrumH M.rt R m) (e : Event) (hs : SimpleEv e)
+    (ht : Timed e) (hk : e.kind = .other) (hnd : e.type ≠ ev_DRUM_MODE) (r : Nat) (hr : r < 65536) {b : List MEv}
+    (hb : Body m M.dm (tItem e e) b) :
+    (∀ x ∈ (prepR r (tItem e e)).1 ++ b, linEv x = true) ∧ (∀ x ∈ (prepR r (tItem e e)).1 ++ b, M.evOk x = true) ∧
+    (prepR r (tItem e e)).2 < 65536 ∧
+    List.replicate r Tk.off ++ itTicks R pf M.dm (item e) =
+      mk (ticks M nS nM ((prepR r (tItem e e)).1 ++ b)) ++ List.replicate (prepR r (tItem e e)).2 Tk.off := by
+  refine ⟨?_, ?_, prepR_lt _ _, ?_⟩
   · by_cases t : e.type = ev_REST
     · rw [body_rest t hb, List.append_nil]
       by_cases hsum : r + e.off ≤ 65535
@@ -406,11 +662,21 @@ theorem leaf_sem (nS nM : Nat) (pf : Timeline.Platform) (m : List (Int × Nat)) 
       intro x hx
       rcases List.mem_append.mp hx with h | h
       · exact lin_flushL r hr x h
-      · exact (body_sem nS nM pf m e hs ht hk t hb).1 x h
+      · exact (body_sem M nS nM R pf m hD e hs ht hk t hnd hb).1 x h
+  · by_cases t : e.type = ev_REST
+    · rw [body_rest t hb, List.append_nil]
+      by_cases hsum : r + e.off ≤ 65535
+      · rw [prepR_rest_small r e t hsum]; intro x hx; simp at hx
+      · rw [prepR_rest_big r e t (by omega) ht.2.1]; exact evOk_flushL M r
+    · rw [prepR_other r e t ht.2.1]
+      intro x hx
+      rcases List.mem_append.mp hx with h | h
+      · exact evOk_flushL M r x h
+      · exact (body_sem M nS nM R pf m hD e hs ht hk t hnd hb).2.1 x h
   · by_cases t : e.type = ev_REST
     · rw [body_rest t hb, List.append_nil]
       have hon : e.on = 0 := ht.2.2.1 (by rw [t]; decide) (by rw [t]; decide)
-      have hit : itTicks pf (item e) = List.replicate e.off Tk.off := by
+      have hit : itTicks R pf M.dm (item e) = List.replicate e.off Tk.off := by
         simp +decide [itTicks, item, t, hon]
       rw [hit]
       by_cases hsum : r + e.off ≤ 65535
@@ -419,7 +685,7 @@ theorem leaf_sem (nS nM : Nat) (pf : Timeline.Platform) (m : List (Int × Nat)) 
       · rw [prepR_rest_big r e t (by omega) ht.2.1]
         simp [ticks_flushL, mk_off]
     · rw [prepR_other r e t ht.2.1]
-      have := (body_sem nS nM pf m e hs ht hk t hb).2
+      have := (body_sem M nS nM R pf m hD e hs ht hk t hnd hb).2.2
       rw [ticks_append, mk_append, ticks_flushL, mk_off, List.append_assoc, this]
 
 /-! ### brackets -/
@@ -466,60 +732,92 @@ theorem type_segno_kind {e : Event} (t : e.type = ev_SEGNO) : e.kind = .segno :=
 
 /-! ### `Emits`, taken apart -/
 
-theorem emits_nil {m : List (Int × Nat)} {r r' : Nat} {g g' : Bool} {ms : List MEv} (h : Emits m r g [] ms r' g') :
+theorem emits_nil {m : List (Int × Nat)} {d : Bool} {r r' : Nat} {g g' : Bool} {ms : List MEv} (h : Emits m d r g [] ms r' g') :
     ms = [] ∧ r' = r ∧ g' = g := by
   cases h; exact ⟨rfl, rfl, rfl⟩
 
-theorem emits_cons {m : List (Int × Nat)} {r r' : Nat} {g g' : Bool} {it : TraceItem} {its : List TraceItem} {ms : List MEv}
-    (h : Emits m r g (it :: its) ms r' g') :
-    ∃ b ms', Body m it b ∧ Emits m (prepR r it).2 (g || it.ev.type == ev_SEGNO) its ms' r' g' ∧
+theorem emits_cons {m : List (Int × Nat)} {d : Bool} {r r' : Nat} {g g' : Bool} {it : TraceItem} {its : List TraceItem}
+    {ms : List MEv} (h : Emits m d r g (it :: its) ms r' g') :
+    ∃ b ms', Body m d it b ∧ Emits m (dAfter d it) (prepR r it).2 (g || it.ev.type == ev_SEGNO) its ms' r' g' ∧
       ms = (prepR r it).1 ++ b ++ ms' := by
   cases h with
   | cons hb he => exact ⟨_, _, hb, he, rfl⟩
 
-theorem emits_append {m : List (Int × Nat)} : ∀ (a b : List TraceItem) {r r' : Nat} {g g' : Bool} {ms : List MEv},
-    Emits m r g (a ++ b) ms r' g' →
-    ∃ ms1 r1 g1 ms2, Emits m r g a ms1 r1 g1 ∧ Emits m r1 g1 b ms2 r' g' ∧ ms = ms1 ++ ms2
-  | [], b, r, r', g, g', ms, h => ⟨[], r, g, ms, .nil r g, h, rfl⟩
-  | it :: a, b, r, r', g, g', ms, h => by
+theorem emits_append {m : List (Int × Nat)} : ∀ (a b : List TraceItem) {d : Bool} {r r' : Nat} {g g' : Bool} {ms : List MEv},
+    Emits m d r g (a ++ b) ms r' g' →
+    ∃ ms1 r1 g1 ms2, Emits m d r g a ms1 r1 g1 ∧ Emits m (dAfterL d a) r1 g1 b ms2 r' g' ∧ ms = ms1 ++ ms2
+  | [], b, d, r, r', g, g', ms, h => ⟨[], r, g, ms, .nil d r g, h, rfl⟩
+  | it :: a, b, d, r, r', g, g', ms, h => by
     obtain ⟨bd, ms', hb, he, rfl⟩ := emits_cons h
     obtain ⟨ms1, r1, g1, ms2, h1, h2, rfl⟩ := emits_append a b he
     exact ⟨(prepR r it).1 ++ bd ++ ms1, r1, g1, ms2, .cons hb h1, h2, by simp [List.append_assoc]⟩
 
-theorem body_lp {m : List (Int × Nat)} {e : Event} (t : e.type = ev_LOOP_START) {b : List MEv} (hb : Body m (tItem e e) b) :
-    b = [⟨mds_LP, 0⟩] := by
+/-- events that are not drum-mode switches leave the writer's drum-mode state alone -/
+theorem dAfterL_const (d : Bool) : ∀ (l : List Event), (∀ e ∈ l, e.type ≠ ev_DRUM_MODE) →
+    dAfterL d (l.map fun e => tItem e e) = d
+  | [], _ => rfl
+  | e :: l, h => by
+    have h1 : ¬ (tItem e e).ev.type = ev_DRUM_MODE := h e (by simp)
+    simp only [List.map_cons, dAfterL, dAfter, if_neg h1]
+    exact dAfterL_const d l (fun x hx => h x (by simp [hx]))
+
+theorem dAfter_const {d : Bool} {e : Event} (h : e.type ≠ ev_DRUM_MODE) : dAfter d (tItem e e) = d := by
+  have h1 : ¬ (tItem e e).ev.type = ev_DRUM_MODE := h
+  simp only [dAfter, if_neg h1]
+
+theorem body_lp {m : List (Int × Nat)} {d : Bool} {e : Event} (t : e.type = ev_LOOP_START) {b : List MEv}
+    (hb : Body m d (tItem e e) b) : b = [⟨mds_LP, 0⟩] := by
   cases hb with
   | jump t' _ => rw [show (tItem e e).ev.type = e.type from rfl, t] at t'; exact absurd t' (by decide)
   | ins t' _ => rw [show (tItem e e).ev.type = e.type from rfl, t] at t'; exact absurd t' (by decide)
+  | dnote t' _ _ _ _ => rw [show (tItem e e).ev.type = e.type from rfl, t] at t'; exact absurd t' (by decide)
   | det h => unfold detBody at h; simp +decide [t] at h; exact h.symm
 
-theorem body_lpb {m : List (Int × Nat)} {e : Event} (t : e.type = ev_LOOP_BREAK) {b : List MEv} (hb : Body m (tItem e e) b) :
-    b = [⟨mds_LPB, 0⟩] := by
+theorem body_lpb {m : List (Int × Nat)} {d : Bool} {e : Event} (t : e.type = ev_LOOP_BREAK) {b : List MEv}
+    (hb : Body m d (tItem e e) b) : b = [⟨mds_LPB, 0⟩] := by
   cases hb with
   | jump t' _ => rw [show (tItem e e).ev.type = e.type from rfl, t] at t'; exact absurd t' (by decide)
   | ins t' _ => rw [show (tItem e e).ev.type = e.type from rfl, t] at t'; exact absurd t' (by decide)
+  | dnote t' _ _ _ _ => rw [show (tItem e e).ev.type = e.type from rfl, t] at t'; exact absurd t' (by decide)
   | det h => unfold detBody at h; simp +decide [t] at h; exact h.symm
 
-theorem body_lpf {m : List (Int × Nat)} {e : Event} (t : e.type = ev_LOOP_END) {b : List MEv} (hb : Body m (tItem e e) b) :
-    b = [⟨mds_LPF, Mds.u16 e.param⟩] := by
+theorem body_lpf {m : List (Int × Nat)} {d : Bool} {e : Event} (t : e.type = ev_LOOP_END) {b : List MEv}
+    (hb : Body m d (tItem e e) b) : b = [⟨mds_LPF, Mds.u16 e.param⟩] := by
   cases hb with
   | jump t' _ => rw [show (tItem e e).ev.type = e.type from rfl, t] at t'; exact absurd t' (by decide)
   | ins t' _ => rw [show (tItem e e).ev.type = e.type from rfl, t] at t'; exact absurd t' (by decide)
+  | dnote t' _ _ _ _ => rw [show (tItem e e).ev.type = e.type from rfl, t] at t'; exact absurd t' (by decide)
   | det h => unfold detBody at h; simp +decide [t] at h; exact h.symm
 
-theorem body_segno {m : List (Int × Nat)} {e : Event} (t : e.type = ev_SEGNO) {b : List MEv} (hb : Body m (tItem e e) b) :
-    b = [⟨mds_SEGNO, 0⟩] := by
+theorem body_segno {m : List (Int × Nat)} {d : Bool} {e : Event} (t : e.type = ev_SEGNO) {b : List MEv}
+    (hb : Body m d (tItem e e) b) : b = [⟨mds_SEGNO, 0⟩] := by
   cases hb with
   | jump t' _ => rw [show (tItem e e).ev.type = e.type from rfl, t] at t'; exact absurd t' (by decide)
   | ins t' _ => rw [show (tItem e e).ev.type = e.type from rfl, t] at t'; exact absurd t' (by decide)
+  | dnote t' _ _ _ _ => rw [show (tItem e e).ev.type = e.type from rfl, t] at t'; exact absurd t' (by decide)
   | det h => unfold detBody at h; simp +decide [t] at h; exact h.symm
 
-theorem body_jump {m : List (Int × Nat)} {e : Event} (t : e.type = ev_JUMP) {b : List MEv} (hb : Body m (tItem e e) b) :
-    ∃ k : Nat, b = [⟨mds_PAT, Mds.u16 (k : Int)⟩] ∧ (subKey e.param false false, k) ∈ m := by
+theorem body_jump {m : List (Int × Nat)} {d : Bool} {e : Event} (t : e.type = ev_JUMP) {b : List MEv}
+    (hb : Body m d (tItem e e) b) :
+    ∃ k : Nat, b = [⟨mds_PAT, Mds.u16 (k : Int)⟩] ∧ (subKey e.param false d, k) ∈ m := by
   cases hb with
   | jump _ hm => exact ⟨_, rfl, hm⟩
   | ins t' _ => rw [show (tItem e e).ev.type = e.type from rfl, t] at t'; exact absurd t' (by decide)
+  | dnote t' _ _ _ _ => rw [show (tItem e e).ev.type = e.type from rfl, t] at t'; exact absurd t' (by decide)
   | det h => unfold detBody at h; simp +decide [t] at h
+
+/-- the drum-mode switch: the `FLG` command with the drum bit -/
+theorem body_drum {m : List (Int × Nat)} {d : Bool} {e : Event} (t : e.type = ev_DRUM_MODE) {b : List MEv}
+    (hb : Body m d (tItem e e) b) : b = [⟨mds_FLG, if e.param ≠ 0 then 8 else 0⟩] := by
+  cases hb with
+  | jump t' _ => rw [show (tItem e e).ev.type = e.type from rfl, t] at t'; exact absurd t' (by decide)
+  | ins t' _ => rw [show (tItem e e).ev.type = e.type from rfl, t] at t'; exact absurd t' (by decide)
+  | dnote t' _ _ _ _ => rw [show (tItem e e).ev.type = e.type from rfl, t] at t'; exact absurd t' (by decide)
+  | det h =>
+    unfold detBody at h
+    simp +decide [t] at h
+    rw [← h]
+    by_cases hp : e.param = 0 <;> simp [hp]
 
 /-- an event without on/off time that is not a rest: the pending rest is flushed, none is pending after -/
 theorem prepR_timeless (r : Nat) (e : Event) (hne : e.type ≠ ev_REST) (ho : e.off = 0) :
@@ -575,84 +873,94 @@ theorem split_topBreak : ∀ (f : List Tree.Node), hasTopBreak f = true →
     exact ⟨.openLoop ls bd :: a, e, b, by rw [h1]; rfl, by simpa [hasTopBreak] using h2, by simpa [topBreakEv] using h3⟩
 
 /-- a loop bracket, as the hook is shown it, plays nothing -/
-theorem itTicks_bracket (pf : Timeline.Platform) (i : Item)
+theorem itTicks_bracket (R : Int → Option (List Tk × Int)) (pf : Timeline.Platform) (dm : Bool) (i : Item)
     (hk : i.ev.type = ev_LOOP_START ∨ i.ev.type = ev_LOOP_BREAK ∨ i.ev.type = ev_LOOP_END ∨ i.ev.type = ev_JUMP)
-    (h1 : i.src.on = 0) (h2 : i.src.off = 0) : itTicks pf i = [] := by
+    (h1 : i.src.on = 0) (h2 : i.src.off = 0) : itTicks R pf dm i = [] := by
   rcases hk with t | t | t | t <;> simp +decide [itTicks, Timeline.cmdOf, t, h1, h2]
 
 /-! ### the semantic invariant of a piece of a track -/
 
-theorem itemsTicks_nil (pf : Timeline.Platform) : itemsTicks pf [] = [] := rfl
-theorem itemsTicks_single (pf : Timeline.Platform) (i : Item) : itemsTicks pf [i] = itTicks pf i := by simp [itemsTicks]
+theorem itemsTicks_nil (R : Int → Option (List Tk × Int)) (pf : Timeline.Platform) (dm : Bool) :
+    itemsTicks R pf dm [] = [] := rfl
+theorem itemsTicks_single (R : Int → Option (List Tk × Int)) (pf : Timeline.Platform) (dm : Bool) (i : Item) :
+    itemsTicks R pf dm [i] = itTicks R pf dm i := by simp [itemsTicks]
 
-theorem itemsTicks_repeat (pf : Timeline.Platform) (k : Nat) (l : List Item) :
-    itemsTicks pf (repeatItems k l) = repeatL k (itemsTicks pf l) := by
+theorem itemsTicks_repeat (R : Int → Option (List Tk × Int)) (pf : Timeline.Platform) (dm : Bool) (k : Nat) (l : List Item) :
+    itemsTicks R pf dm (repeatItems k l) = repeatL k (itemsTicks R pf dm l) := by
   induction k with
   | zero => rfl
   | succ k ih => simp [repeatItems, repeatL, itemsTicks_append, ih]
 
 section
-variable (nS nM : Nat) (pf : Timeline.Platform) (m : List (Int × Nat)) (seq : List Nat) (base mj : Nat)
-  (call : Nat → Nat → Except SErr (List Item)) (Q : Event → Prop)
+variable (M : Mode) (nS nM : Nat) (R : Int → Option (List Tk × Int)) (pf : Timeline.Platform) (m : List (Int × Nat))
+  (seq : List Nat) (base mj : Nat) (call : Nat → Nat → Except SErr (List Item)) (Q : Event → Prop)
 
 /-- what is known about the calls (`Q` = what is known about a call event, e.g. that its target has no
-loop point): a call to a track whose expansion is `its`, registered in the
-subroutine map under index `k`, finds through slot `k` of the pointer table a stream that plays —
-up to masking — the ticks of `its`, and returns -/
+loop point): a call, made in drum-mode state `M.dm`, to a track whose expansion is `its`, registered
+in the subroutine map under index `k`, finds through slot `k` of the pointer table a stream that
+plays — up to masking — the ticks of `its`, and returns -/
 def CallH : Prop :=
   ∀ (d : Nat) (e : Event) (its : List Item) (k : Nat), e.kind = .jump → Q e →
-    call d (trackIdOfParam e.param) = .ok its → (subKey e.param false false, k) ∈ m → Mds.u16 (k : Int) < 256 →
-    ∃ T, (∃ t, slotTarget seq base (Mds.u16 (k : Int) % 256) = some t ∧ SubPlays seq base mj t T) ∧
-      mk T = itemsTicks pf its
+    call d (trackIdOfParam e.param) = .ok its → (subKey e.param false M.dm, k) ∈ m → Mds.u16 (k : Int) < 256 →
+    ∃ T, (∃ t, slotTarget seq base (Mds.u16 (k : Int) % 256) = some t ∧ SubPlays seq base mj M.dm t T) ∧
+      mk T = itemsTicks R pf M.dm its
 
 /-- the event list `ms` written for a piece of a track that performs as `items`, entered with `r`
-ticks of rest pending and left with `r'`: it is the flat form of a bracket structure of the codec
-fragment that plays, up to masking, the pending rest and the ticks of `items` except for the rest
-that is pending at the end.  `hasB` = the piece has a break marker at its top level. -/
+ticks of rest pending and left with `r'`, in one drum-mode state: it is the flat form of a bracket
+structure of the codec fragment that fits the mode and plays, up to masking, the pending rest and
+the ticks of `items` except for the rest that is pending at the end.  `hasB` = the piece has a break
+marker at its top level. -/
 def SemOK (hasB : Bool) (items : List Item) (r : Nat) (ms : List MEv) (r' : Nat) : Prop :=
   ∃ ts : List Codec.Node, flatL ts = ms ∧ linL ts = true ∧ brkOkL true ts = true ∧
-    (hasB = false → brkOkL false ts = true) ∧ callsOkL seq base mj ts ∧
-    List.replicate r Tk.off ++ itemsTicks pf items = mk (Codec.expL nS nM ts) ++ List.replicate r' Tk.off
+    (hasB = false → brkOkL false ts = true) ∧ mokL M false ts = true ∧ callsOkL M seq base mj ts ∧
+    List.replicate r Tk.off ++ itemsTicks R pf M.dm items = mk (Codec.expL M nS nM ts) ++ List.replicate r' Tk.off
 
-theorem SemOK.nil (r : Nat) : SemOK nS nM pf seq base mj false [] r [] r :=
-  ⟨[], rfl, rfl, rfl, fun _ => rfl, by simp [callsOkL], by simp [itemsTicks, Codec.expL, mk]⟩
+theorem SemOK.nil (r : Nat) : SemOK M nS nM R pf seq base mj false [] r [] r :=
+  ⟨[], rfl, rfl, rfl, fun _ => rfl, rfl, by simp [callsOkL], by simp [itemsTicks, Codec.expL, mk]⟩
 
 theorem SemOK.append {h1 h2 : Bool} {i1 i2 : List Item} {r r1 r2 : Nat} {ms1 ms2 : List MEv}
-    (a : SemOK nS nM pf seq base mj h1 i1 r ms1 r1) (b : SemOK nS nM pf seq base mj h2 i2 r1 ms2 r2) :
-    SemOK nS nM pf seq base mj (h1 || h2) (i1 ++ i2) r (ms1 ++ ms2) r2 := by
-  obtain ⟨t1, f1, l1, k1, k1', c1, e1⟩ := a
-  obtain ⟨t2, f2, l2, k2, k2', c2, e2⟩ := b
+    (a : SemOK M nS nM R pf seq base mj h1 i1 r ms1 r1) (b : SemOK M nS nM R pf seq base mj h2 i2 r1 ms2 r2) :
+    SemOK M nS nM R pf seq base mj (h1 || h2) (i1 ++ i2) r (ms1 ++ ms2) r2 := by
+  obtain ⟨t1, f1, l1, k1, k1', o1, c1, e1⟩ := a
+  obtain ⟨t2, f2, l2, k2, k2', o2, c2, e2⟩ := b
+  have ha : afterL M t1 = M := afterL_of_mok o1
   refine ⟨t1 ++ t2, by rw [flatL_append, f1, f2], by rw [linL_append, l1, l2]; rfl, by rw [brkOkL_append, k1, k2]; rfl,
-    ?_, callsOkL_append c1 c2, ?_⟩
+    ?_, by rw [mokL_append, o1, ha, o2]; rfl, callsOkL_append c1 (by rw [ha]; exact c2), ?_⟩
   · intro hb
     simp only [Bool.or_eq_false_iff] at hb
     rw [brkOkL_append, k1' hb.1, k2' hb.2]; rfl
-  · rw [itemsTicks_append, ← List.append_assoc, e1, List.append_assoc, e2, expL_append, mk_append, List.append_assoc]
+  · rw [itemsTicks_append, ← List.append_assoc, e1, List.append_assoc, e2, expL_append, ha, mk_append, List.append_assoc]
 
 /-- the pending rest flushed into a piece that ends there: the body of a loop, up to its break or end -/
 theorem SemOK.closed_ticks {hb : Bool} {items : List Item} {ms : List MEv} {r' : Nat}
-    (h : SemOK nS nM pf seq base mj hb items 0 ms r') (hr' : r' < 65536) :
+    (h : SemOK M nS nM R pf seq base mj hb items 0 ms r') (hr' : r' < 65536) :
     ∃ ts : List Codec.Node, flatL ts = ms ++ flushL r' ∧ linL ts = true ∧ brkOkL true ts = true ∧
-      (hb = false → brkOkL false ts = true) ∧ callsOkL seq base mj ts ∧
-      mk (Codec.expL nS nM ts) = itemsTicks pf items := by
-  obtain ⟨ts, f, l, k, k', c, e⟩ := h
+      (hb = false → brkOkL false ts = true) ∧ mokL M false ts = true ∧ callsOkL M seq base mj ts ∧
+      mk (Codec.expL M nS nM ts) = itemsTicks R pf M.dm items := by
+  obtain ⟨ts, f, l, k, k', o, c, e⟩ := h
+  have ha : afterL M ts = M := afterL_of_mok o
+  have hfo := evOk_flushL M r'
   refine ⟨ts ++ evNodes (flushL r'), by rw [flatL_append, f, flatL_evNodes],
     by rw [linL_append, l, linL_evNodes _ (lin_flushL r' hr')]; rfl, by rw [brkOkL_append, k, brkOkL_evNodes]; rfl,
-    fun hh => by rw [brkOkL_append, k' hh, brkOkL_evNodes]; rfl, callsOkL_append c (callsOkL_evNodes _ _ _ _), ?_⟩
-  rw [expL_append, expL_evNodes, ticks_flushL, mk_append, mk_off]
+    fun hh => by rw [brkOkL_append, k' hh, brkOkL_evNodes]; rfl,
+    by rw [mokL_append, o, ha, mokL_evNodes M false _ hfo]; rfl,
+    callsOkL_append c (callsOkL_evNodes _ _ _ _ _), ?_⟩
+  rw [expL_append, ha, expL_evNodes M nS nM _ hfo, ticks_flushL, mk_append, mk_off]
   simpa using e.symm
 
 /-- a piece made of leaf events only -/
 theorem SemOK.leaves {items : List Item} {r r' : Nat} (ms : List MEv) (hl : ∀ x ∈ ms, linEv x = true)
-    (ht : List.replicate r Tk.off ++ itemsTicks pf items = mk (ticks nS nM ms) ++ List.replicate r' Tk.off) :
-    SemOK nS nM pf seq base mj false items r ms r' :=
+    (ho : ∀ x ∈ ms, M.evOk x = true)
+    (ht : List.replicate r Tk.off ++ itemsTicks R pf M.dm items = mk (ticks M nS nM ms) ++ List.replicate r' Tk.off) :
+    SemOK M nS nM R pf seq base mj false items r ms r' :=
   ⟨evNodes ms, flatL_evNodes ms, linL_evNodes ms hl, brkOkL_evNodes true ms, fun _ => brkOkL_evNodes false ms,
-    callsOkL_evNodes seq base mj ms, by rw [expL_evNodes]; exact ht⟩
+    mokL_evNodes M false ms ho, callsOkL_evNodes M seq base mj ms, by rw [expL_evNodes M nS nM ms ho]; exact ht⟩
 
-/-- the events of a track piece: in the plain fragment, with front-end timing, no loop point, loop
-counts in a byte -/
+/-- the events of a track piece: in the fragment, with front-end timing, no loop point, loop
+counts in a byte, no drum-mode switch -/
 def EvOK (e : Event) : Prop :=
-  SimpleEv e ∧ Timed e ∧ e.kind ≠ .segno ∧ (e.type = ev_LOOP_END → 0 ≤ e.param ∧ e.param ≤ 255) ∧ (e.kind = .jump → Q e)
+  SimpleEv e ∧ Timed e ∧ e.kind ≠ .segno ∧ (e.type = ev_LOOP_END → 0 ≤ e.param ∧ e.param ≤ 255) ∧
+    (e.kind = .jump → Q e) ∧ e.type ≠ ev_DRUM_MODE
 
 theorem EvOK.timeless {Q : Event → Prop} {e : Event} (h : EvOK Q e) (h1 : e.type ≠ ev_NOTE) (h2 : e.type ≠ ev_TIE) (h3 : e.type ≠ ev_REST) :
     e.on = 0 ∧ e.off = 0 := ⟨h.2.1.2.2.1 h1 h2, h.2.1.2.2.2.1 h1 h2 h3⟩
@@ -674,43 +982,50 @@ theorem passes_eq (p : Int) (h0 : 0 ≤ p) (h1 : p ≤ 255) :
 
 /-- a loop without break around a body that is known -/
 theorem semok_loop (r : Nat) (hr : r < 65536) {full : List Item} {msB : List MEv} {rB : Nat}
-    (hB : SemOK nS nM pf seq base mj false full 0 msB rB) (hrB : rB < 65536) (p : Int) (hp0 : 0 ≤ p) (hp1 : p ≤ 255)
-    (X : List Item) (hX : itemsTicks pf X = repeatL (if p.toNat ≤ 1 then 1 else p.toNat) (itemsTicks pf full)) :
-    SemOK nS nM pf seq base mj false X r
+    (hB : SemOK M nS nM R pf seq base mj false full 0 msB rB) (hrB : rB < 65536) (p : Int) (hp0 : 0 ≤ p) (hp1 : p ≤ 255)
+    (X : List Item)
+    (hX : itemsTicks R pf M.dm X = repeatL (if p.toNat ≤ 1 then 1 else p.toNat) (itemsTicks R pf M.dm full)) :
+    SemOK M nS nM R pf seq base mj false X r
       (flushL r ++ [⟨mds_LP, 0⟩] ++ (msB ++ (flushL rB ++ [⟨mds_LPF, Mds.u16 p⟩]))) 0 := by
-  obtain ⟨tb, fb, lb, _, kb, cb, eb⟩ := SemOK.closed_ticks nS nM pf seq base mj hB hrB
-  refine ⟨evNodes (flushL r) ++ [.loop tb (Mds.u16 p)], ?_, ?_, ?_, fun _ => ?_, ?_, ?_⟩
+  obtain ⟨tb, fb, lb, _, kb, ob, cb, eb⟩ := SemOK.closed_ticks M nS nM R pf seq base mj hB hrB
+  have hfo := evOk_flushL M r
+  have ha : afterL M (evNodes (flushL r)) = M := afterL_evNodes M _ hfo
+  refine ⟨evNodes (flushL r) ++ [.loop tb (Mds.u16 p)], ?_, ?_, ?_, fun _ => ?_, ?_, ?_, ?_⟩
   · rw [flatL_append, flatL_evNodes]
     simp [flatL, Codec.Node.flat, fb, List.append_assoc]
   · rw [linL_append, linL_evNodes _ (lin_flushL r hr)]; simp [linL, Codec.Node.lin, lb]
   · rw [brkOkL_append, brkOkL_evNodes]; simp [brkOkL, Codec.Node.brkOk, kb rfl]
   · rw [brkOkL_append, brkOkL_evNodes]; simp [brkOkL, Codec.Node.brkOk, kb rfl]
-  · exact callsOkL_append (callsOkL_evNodes _ _ _ _) (by simp [callsOkL, Codec.Node.callsOk, cb])
-  · rw [expL_append, expL_evNodes, ticks_flushL, mk_append, mk_off, hX]
+  · rw [mokL_append, mokL_evNodes M false _ hfo, ha]; simp [mokL, Codec.Node.mok, ob]
+  · exact callsOkL_append (callsOkL_evNodes _ _ _ _ _) (by rw [ha]; simp [callsOkL, Codec.Node.callsOk, cb])
+  · rw [expL_append, ha, expL_evNodes M nS nM _ hfo, ticks_flushL, mk_append, mk_off, hX]
     simp [Codec.expL, Codec.Node.exp, mk_repeatL, eb, passes_eq p hp0 hp1]
 
 /-- a loop with a break: `ia` before the first break, `ib` after it -/
 theorem semok_loopB (r : Nat) (hr : r < 65536) {ia ib : List Item} {msA msB : List MEv} {rA rB : Nat} {hb : Bool}
-    (hA : SemOK nS nM pf seq base mj false ia 0 msA rA) (hrA : rA < 65536)
-    (hB : SemOK nS nM pf seq base mj hb ib 0 msB rB) (hrB : rB < 65536) (p : Int) (hp0 : 0 ≤ p) (hp1 : p ≤ 255)
+    (hA : SemOK M nS nM R pf seq base mj false ia 0 msA rA) (hrA : rA < 65536)
+    (hB : SemOK M nS nM R pf seq base mj hb ib 0 msB rB) (hrB : rB < 65536) (p : Int) (hp0 : 0 ≤ p) (hp1 : p ≤ 255)
     (X : List Item)
-    (hX : itemsTicks pf X =
-      repeatL ((if p.toNat ≤ 1 then 1 else p.toNat) - 1) (itemsTicks pf ia ++ itemsTicks pf ib) ++ itemsTicks pf ia ++
-        (if p.toNat ≤ 1 then itemsTicks pf ib else [])) :
-    SemOK nS nM pf seq base mj false X r
+    (hX : itemsTicks R pf M.dm X =
+      repeatL ((if p.toNat ≤ 1 then 1 else p.toNat) - 1) (itemsTicks R pf M.dm ia ++ itemsTicks R pf M.dm ib) ++
+        itemsTicks R pf M.dm ia ++ (if p.toNat ≤ 1 then itemsTicks R pf M.dm ib else [])) :
+    SemOK M nS nM R pf seq base mj false X r
       (flushL r ++ [⟨mds_LP, 0⟩] ++ (msA ++ (flushL rA ++ [⟨mds_LPB, 0⟩] ++ (msB ++ (flushL rB ++ [⟨mds_LPF, Mds.u16 p⟩]))))) 0 := by
-  obtain ⟨ta, fa, la, _, ka, ca, ea⟩ := SemOK.closed_ticks nS nM pf seq base mj hA hrA
-  obtain ⟨tb, fb, lb, kb, _, cb, eb⟩ := SemOK.closed_ticks nS nM pf seq base mj hB hrB
+  obtain ⟨ta, fa, la, _, ka, oa, ca, ea⟩ := SemOK.closed_ticks M nS nM R pf seq base mj hA hrA
+  obtain ⟨tb, fb, lb, kb, _, ob, cb, eb⟩ := SemOK.closed_ticks M nS nM R pf seq base mj hB hrB
   have hu : Mds.u16 p = p.toNat := by unfold Mds.u16; omega
   have hmod : p.toNat % 256 = p.toNat := by omega
-  refine ⟨evNodes (flushL r) ++ [.loopB ta tb (Mds.u16 p)], ?_, ?_, ?_, fun _ => ?_, ?_, ?_⟩
+  have hfo := evOk_flushL M r
+  have ha : afterL M (evNodes (flushL r)) = M := afterL_evNodes M _ hfo
+  refine ⟨evNodes (flushL r) ++ [.loopB ta tb (Mds.u16 p)], ?_, ?_, ?_, fun _ => ?_, ?_, ?_, ?_⟩
   · rw [flatL_append, flatL_evNodes]
     simp [flatL, Codec.Node.flat, fa, fb, List.append_assoc]
   · rw [linL_append, linL_evNodes _ (lin_flushL r hr)]; simp [linL, Codec.Node.lin, la, lb]
   · rw [brkOkL_append, brkOkL_evNodes]; simp [brkOkL, Codec.Node.brkOk, ka rfl, kb]
   · rw [brkOkL_append, brkOkL_evNodes]; simp [brkOkL, Codec.Node.brkOk, ka rfl, kb]
-  · exact callsOkL_append (callsOkL_evNodes _ _ _ _) (by simp [callsOkL, Codec.Node.callsOk, ca, cb])
-  · rw [expL_append, expL_evNodes, ticks_flushL, mk_append, mk_off, hX]
+  · rw [mokL_append, mokL_evNodes M false _ hfo, ha]; simp [mokL, Codec.Node.mok, oa, ob]
+  · exact callsOkL_append (callsOkL_evNodes _ _ _ _ _) (by rw [ha]; simp [callsOkL, Codec.Node.callsOk, ca, cb])
+  · rw [expL_append, ha, expL_evNodes M nS nM _ hfo, ticks_flushL, mk_append, mk_off, hX]
     have hpass : Codec.passes p.toNat = if p.toNat ≤ 1 then 1 else p.toNat := by unfold Codec.passes; rw [hmod]
     simp only [Codec.expL, Codec.Node.exp, List.append_nil, mk_append, mk_repeatL, ea, eb, hu, hmod, hpass]
     split <;> simp [mk_nil, eb]
@@ -722,15 +1037,17 @@ theorem or_segno_false {g : Bool} {e : Event} (h : e.kind ≠ .segno) : (g || (t
 
 set_option maxRecDepth 8192 in
 mutual
-theorem semN (hH : CallH pf m seq base mj call Q) (n : Tree.Node) (hcl : Node.closed n) (hev : ∀ e ∈ flattenN n, EvOK Q e)
+theorem semN (hH : CallH M R pf m seq base mj call Q) (hD : DrumH M.rt R m) (n : Tree.Node) (hcl : Node.closed n)
+    (hev : ∀ e ∈ flattenN n, EvOK Q e)
     (d : Nat) (il : Bool) (items : List Item) (hexp : Expand.expN call d il n = .ok items)
     (r : Nat) (g : Bool) (ms : List MEv) (r' : Nat) (g' : Bool) (hr : r < 65536)
-    (hem : Emits m r g ((flattenN n).map fun e => tItem e e) ms r' g')
+    (hem : Emits m M.dm r g ((flattenN n).map fun e => tItem e e) ms r' g')
     (hfit : ∀ ev ∈ ms, ev.type = mds_PAT → ev.arg < 256) :
-    SemOK nS nM pf seq base mj (isBrk n) items r ms r' ∧ r' < 65536 ∧ g' = g := by
+    SemOK M nS nM R pf seq base mj (isBrk n) items r ms r' ∧ r' < 65536 ∧ g' = g := by
   match n, hcl, hev, hexp, hem with
   | .ev e, hcl, hev, hexp, hem =>
     have he : EvOK Q e := hev e (by simp [flattenN])
+    have hnd : e.type ≠ ev_DRUM_MODE := he.2.2.2.2.2
     simp only [flattenN, List.map_cons, List.map_nil] at hem
     obtain ⟨b, ms', hb, he', rfl⟩ := emits_cons hem
     obtain ⟨rfl, rfl, rfl⟩ := emits_nil he'
@@ -747,21 +1064,25 @@ theorem semN (hH : CallH pf m seq base mj call Q) (n : Tree.Node) (hcl : Node.cl
       have hk256 : Mds.u16 (k : Int) < 256 := hfit ⟨mds_PAT, Mds.u16 (k : Int)⟩ (by simp) rfl
       obtain ⟨hon, hoff⟩ := he.timeless (by rw [t]; decide) (by rw [t]; decide) (by rw [t]; decide)
       rw [prepR_timeless r e (by rw [t]; decide) hoff]
-      obtain ⟨T, ⟨tg, htg, hsub⟩, hT⟩ := hH d e its k hk (he.2.2.2.2 hk) hits hmem hk256
-      refine ⟨⟨evNodes (flushL r) ++ [.call (Mds.u16 (k : Int)) T], ?_, ?_, ?_, fun _ => ?_, ?_, ?_⟩, by omega, rfl⟩
+      obtain ⟨T, ⟨tg, htg, hsub⟩, hT⟩ := hH d e its k hk (he.2.2.2.2.1 hk) hits hmem hk256
+      have hfo := evOk_flushL M r
+      have ha : afterL M (evNodes (flushL r)) = M := afterL_evNodes M _ hfo
+      refine ⟨⟨evNodes (flushL r) ++ [.call (Mds.u16 (k : Int)) T], ?_, ?_, ?_, fun _ => ?_, ?_, ?_, ?_⟩, by omega, rfl⟩
       · rw [flatL_append, flatL_evNodes]; simp [flatL, Codec.Node.flat]
       · rw [linL_append, linL_evNodes _ (lin_flushL r hr)]; simp [linL, Codec.Node.lin]
       · rw [brkOkL_append, brkOkL_evNodes]; simp [brkOkL, Codec.Node.brkOk]
       · rw [brkOkL_append, brkOkL_evNodes]; simp [brkOkL, Codec.Node.brkOk]
-      · exact callsOkL_append (callsOkL_evNodes _ _ _ _) (by simp only [callsOkL, Codec.Node.callsOk, and_true]; exact ⟨tg, htg, hsub⟩)
-      · have hi : itTicks pf (item e) = [] := itTicks_bracket pf (item e) (.inr (.inr (.inr t))) hon hoff
-        rw [expL_append, expL_evNodes, ticks_flushL, mk_append, mk_off]
+      · rw [mokL_append, mokL_evNodes M false _ hfo, ha]; simp [mokL, Codec.Node.mok]
+      · exact callsOkL_append (callsOkL_evNodes _ _ _ _ _)
+          (by rw [ha]; simp only [callsOkL, Codec.Node.callsOk, and_true]; exact ⟨tg, htg, hsub⟩)
+      · have hi : itTicks R pf M.dm (item e) = [] := itTicks_bracket R pf M.dm (item e) (.inr (.inr (.inr t))) hon hoff
+        rw [expL_append, ha, expL_evNodes M nS nM _ hfo, ticks_flushL, mk_append, mk_off]
         simp [itemsTicks_cons, itemsTicks_append, hi, Codec.expL, Codec.Node.exp, hT]
     · -- a leaf event
       have hx : items = [item e] := by simpa [expN, hk] using hexp.symm
       subst hx
-      obtain ⟨hl, hlt, htk⟩ := leaf_sem nS nM pf m e he.1 he.2.1 hk r hr hb
-      exact ⟨SemOK.leaves nS nM pf seq base mj _ hl (by simpa [itemsTicks] using htk), hlt, rfl⟩
+      obtain ⟨hl, ho, hlt, htk⟩ := leaf_sem M nS nM R pf m hD e he.1 he.2.1 hk hnd r hr hb
+      exact ⟨SemOK.leaves M nS nM R pf seq base mj _ hl ho (by simpa [itemsTicks] using htk), hlt, rfl⟩
   | .brk e, hcl, hev, hexp, hem =>
     have he : EvOK Q e := hev e (by simp [flattenN])
     have t := kind_loopBreak hcl
@@ -776,13 +1097,16 @@ theorem semN (hH : CallH pf m seq base mj call Q) (n : Tree.Node) (hcl : Node.cl
       rw [or_segno_false he.2.2.1, List.append_nil, body_lpb t hb]
       obtain ⟨hon, hoff⟩ := he.timeless (by rw [t]; decide) (by rw [t]; decide) (by rw [t]; decide)
       rw [prepR_timeless r e (by rw [t]; decide) hoff]
-      refine ⟨⟨evNodes (flushL r) ++ [.xbrk], ?_, ?_, ?_, fun h => by simp [isBrk] at h, ?_, ?_⟩, by omega, rfl⟩
+      have hfo := evOk_flushL M r
+      have ha : afterL M (evNodes (flushL r)) = M := afterL_evNodes M _ hfo
+      refine ⟨⟨evNodes (flushL r) ++ [.xbrk], ?_, ?_, ?_, fun h => by simp [isBrk] at h, ?_, ?_, ?_⟩, by omega, rfl⟩
       · rw [flatL_append, flatL_evNodes]; simp [flatL, Codec.Node.flat]
       · rw [linL_append, linL_evNodes _ (lin_flushL r hr)]; simp [linL, Codec.Node.lin]
       · rw [brkOkL_append, brkOkL_evNodes]; simp [brkOkL, Codec.Node.brkOk]
-      · exact callsOkL_append (callsOkL_evNodes _ _ _ _) (by simp [callsOkL, Codec.Node.callsOk])
-      · have hi : itTicks pf (item e) = [] := itTicks_bracket pf (item e) (.inr (.inl t)) hon hoff
-        rw [expL_append, expL_evNodes, ticks_flushL, mk_append, mk_off]
+      · rw [mokL_append, mokL_evNodes M false _ hfo, ha]; simp [mokL, Codec.Node.mok]
+      · exact callsOkL_append (callsOkL_evNodes _ _ _ _ _) (by simp [callsOkL, Codec.Node.callsOk])
+      · have hi : itTicks R pf M.dm (item e) = [] := itTicks_bracket R pf M.dm (item e) (.inr (.inl t)) hon hoff
+        rw [expL_append, ha, expL_evNodes M nS nM _ hfo, ticks_flushL, mk_append, mk_off]
         simp [itemsTicks, hi, Codec.expL, Codec.Node.exp, mk]
   | .strayEnd e, hcl, _, _, _ => exact absurd hcl (by simp [Node.closed])
   | .openLoop ls b, hcl, _, _, _ => exact absurd hcl (by simp [Node.closed])
@@ -791,6 +1115,7 @@ theorem semN (hH : CallH pf m seq base mj call Q) (n : Tree.Node) (hcl : Node.cl
     have hls : EvOK Q ls := hev ls (by simp [flattenN])
     have hle : EvOK Q le := hev le (by simp [flattenN])
     have hbody : ∀ e ∈ flattenL body, EvOK Q e := fun e he => hev e (by simp [flattenN, he])
+    have hbnd : ∀ e ∈ flattenL body, e.type ≠ ev_DRUM_MODE := fun e he => (hbody e he).2.2.2.2.2
     have tls := kind_loopStart hlsk
     have tle := kind_loopEnd hlek
     obtain ⟨hp0, hp1⟩ := hle.2.2.2.1 tle
@@ -803,7 +1128,7 @@ theorem semN (hH : CallH pf m seq base mj call Q) (n : Tree.Node) (hcl : Node.cl
     rw [hmap] at hem
     obtain ⟨b0, ms0, hb0, he0, rfl⟩ := emits_cons hem
     obtain rfl := body_lp tls hb0
-    rw [or_segno_false hls.2.2.1] at he0
+    rw [or_segno_false hls.2.2.1, dAfter_const hls.2.2.2.2.2] at he0
     rw [prepR_timeless r ls (by rw [tls]; decide) hlsoff] at he0 ⊢
     simp only at he0
     -- the expansion
@@ -818,14 +1143,15 @@ theorem semN (hH : CallH pf m seq base mj call Q) (n : Tree.Node) (hcl : Node.cl
       simp only at hexp
       have hneg : ¬ le.param < 0 := by omega
       simp only [hneg, if_false] at hexp
-      have hils : itTicks pf (item ls) = [] :=
-        itTicks_bracket pf (item ls) (.inl tls) (hls.timeless (by rw [tls]; decide) (by rw [tls]; decide) (by rw [tls]; decide)).1 hlsoff
-      have hile : itTicks pf (item le) = [] := itTicks_bracket pf (item le) (.inr (.inr (.inl tle))) hleon hleoff
+      have hils : itTicks R pf M.dm (item ls) = [] :=
+        itTicks_bracket R pf M.dm (item ls) (.inl tls) (hls.timeless (by rw [tls]; decide) (by rw [tls]; decide) (by rw [tls]; decide)).1 hlsoff
+      have hile : itTicks R pf M.dm (item le) = [] := itTicks_bracket R pf M.dm (item le) (.inr (.inr (.inl tle))) hleon hleoff
       cases hb : hasTopBreak body with
       | false =>
         -- no break: the body is one piece
         obtain ⟨msB, rB, gB, msE, heB, heE, rfl⟩ := emits_append _ _ he0
-        obtain ⟨sB, hrB, hgB⟩ := semL hH body hbcl hbody (d + 1) true full hfullR 0 g msB rB gB (by omega) heB
+        rw [dAfterL_const M.dm _ hbnd] at heE
+        obtain ⟨sB, hrB, hgB⟩ := semL hH hD body hbcl hbody (d + 1) true full hfullR 0 g msB rB gB (by omega) heB
           (fun ev hev => hfit ev (by simp [hev]))
         obtain rfl : g = gB := hgB.symm
         rw [hb] at sB
@@ -833,7 +1159,7 @@ theorem semN (hH : CallH pf m seq base mj call Q) (n : Tree.Node) (hcl : Node.cl
         obtain ⟨rfl, rfl, rfl⟩ := emits_nil heE'
         rw [or_segno_false hle.2.2.1, body_lpf tle hbE, prepR_timeless rB le (by rw [tle]; decide) hleoff]
         refine ⟨?_, by omega, rfl⟩
-        have := semok_loop nS nM pf seq base mj r hr sB hrB le.param hp0 hp1 items ?_
+        have := semok_loop M nS nM R pf seq base mj r hr sB hrB le.param hp0 hp1 items ?_
         · simpa [isBrk, List.append_assoc] using this
         · by_cases hn1 : le.param.toNat ≤ 1
           · simp only [hn1, if_true, Except.ok.injEq] at hexp
@@ -856,8 +1182,10 @@ theorem semN (hH : CallH pf m seq base mj call Q) (n : Tree.Node) (hcl : Node.cl
         have heb : EvOK Q eb := hbody eb (by rw [hflat]; simp)
         have hea : ∀ e ∈ flattenL a, EvOK Q e := fun e he => hbody e (by rw [hflat]; simp [he])
         have heb' : ∀ e ∈ flattenL b, EvOK Q e := fun e he => hbody e (by rw [hflat]; simp [he])
+        have hand : ∀ e ∈ flattenL a, e.type ≠ ev_DRUM_MODE := fun e he => (hea e he).2.2.2.2.2
+        have hbnd' : ∀ e ∈ flattenL b, e.type ≠ ev_DRUM_MODE := fun e he => (heb' e he).2.2.2.2.2
         obtain ⟨hebon, heboff⟩ := heb.timeless (by rw [teb]; decide) (by rw [teb]; decide) (by rw [teb]; decide)
-        have hieb : itTicks pf (item eb) = [] := itTicks_bracket pf (item eb) (.inr (.inl teb)) hebon heboff
+        have hieb : itTicks R pf M.dm (item eb) = [] := itTicks_bracket R pf M.dm (item eb) (.inr (.inl teb)) hebon heboff
         -- expansion of the body
         obtain ⟨ia, y, hia, hy, rfl⟩ := expL_append_ok call (d + 1) true a (.brk eb :: b) full hfullR
         rw [Refine.expL_cons] at hy
@@ -871,24 +1199,26 @@ theorem semN (hH : CallH pf m seq base mj call Q) (n : Tree.Node) (hcl : Node.cl
           simp
         rw [hmap2] at he0
         obtain ⟨msA, rA, gA, ms1, heA, he1, rfl⟩ := emits_append _ _ he0
-        obtain ⟨sA, hrA, hgA⟩ := semL hH a hacl hea (d + 1) true ia hia 0 g msA rA gA (by omega) heA
+        rw [dAfterL_const M.dm _ hand] at he1
+        obtain ⟨sA, hrA, hgA⟩ := semL hH hD a hacl hea (d + 1) true ia hia 0 g msA rA gA (by omega) heA
           (fun ev hev => hfit ev (by simp [hev]))
         obtain rfl : g = gA := hgA.symm
         rw [hab] at sA
         obtain ⟨bb, ms2, hbb, he2, rfl⟩ := emits_cons he1
         obtain rfl := body_lpb teb hbb
-        rw [or_segno_false heb.2.2.1] at he2
+        rw [or_segno_false heb.2.2.1, dAfter_const heb.2.2.2.2.2] at he2
         rw [prepR_timeless rA eb (by rw [teb]; decide) heboff] at he2 ⊢
         simp only at he2
         obtain ⟨msB, rB, gB, msE, heB, heE, rfl⟩ := emits_append _ _ he2
-        obtain ⟨sB, hrB, hgB⟩ := semL hH b hbcl' heb' (d + 1) true ib hib 0 g msB rB gB (by omega) heB
+        rw [dAfterL_const M.dm _ hbnd'] at heE
+        obtain ⟨sB, hrB, hgB⟩ := semL hH hD b hbcl' heb' (d + 1) true ib hib 0 g msB rB gB (by omega) heB
           (fun ev hev => hfit ev (by simp [hev]))
         obtain rfl : g = gB := hgB.symm
         obtain ⟨bE, msE', hbE, heE', rfl⟩ := emits_cons heE
         obtain ⟨rfl, rfl, rfl⟩ := emits_nil heE'
         rw [or_segno_false hle.2.2.1, body_lpf tle hbE, prepR_timeless rB le (by rw [tle]; decide) hleoff]
         refine ⟨?_, by omega, rfl⟩
-        have := semok_loopB nS nM pf seq base mj r hr sA hrA sB hrB le.param hp0 hp1 items ?_
+        have := semok_loopB M nS nM R pf seq base mj r hr sA hrA sB hrB le.param hp0 hp1 items ?_
         · simpa [isBrk, List.append_assoc] using this
         · by_cases hn1 : le.param.toNat ≤ 1
           · simp only [hn1, if_true, Except.ok.injEq] at hexp
@@ -899,8 +1229,8 @@ theorem semN (hH : CallH pf m seq base mj call Q) (n : Tree.Node) (hcl : Node.cl
             rw [expPre_split call (d + 1) eb b a hab, hia] at hexp
             simp only [Except.ok.injEq] at hexp
             subst hexp
-            have hix : itTicks pf { ev := le, src := topBreakEv (a ++ Tree.Node.brk eb :: b) } = [] := by
-              rw [htb]; exact itTicks_bracket pf _ (.inr (.inr (.inl tle))) hebon heboff
+            have hix : itTicks R pf M.dm { ev := le, src := topBreakEv (a ++ Tree.Node.brk eb :: b) } = [] := by
+              rw [htb]; exact itTicks_bracket R pf M.dm _ (.inr (.inr (.inl tle))) hebon heboff
             simp [itemsTicks_cons, itemsTicks_repeat, itemsTicks_append, itemsTicks_single, itemsTicks_nil, hils, hile, hieb, hix, hn1]
 termination_by 2 * (flattenN n).length
 decreasing_by
@@ -908,12 +1238,13 @@ decreasing_by
   all_goals (try subst_vars)
   all_goals simp [flattenN, Tree.flattenL_append, Tree.flattenL_cons]
   all_goals omega
-theorem semL (hH : CallH pf m seq base mj call Q) (f : List Tree.Node) (hcl : closedL f) (hev : ∀ e ∈ flattenL f, EvOK Q e)
+theorem semL (hH : CallH M R pf m seq base mj call Q) (hD : DrumH M.rt R m) (f : List Tree.Node) (hcl : closedL f)
+    (hev : ∀ e ∈ flattenL f, EvOK Q e)
     (d : Nat) (il : Bool) (items : List Item) (hexp : Expand.expL call d il f = .ok items)
     (r : Nat) (g : Bool) (ms : List MEv) (r' : Nat) (g' : Bool) (hr : r < 65536)
-    (hem : Emits m r g ((flattenL f).map fun e => tItem e e) ms r' g')
+    (hem : Emits m M.dm r g ((flattenL f).map fun e => tItem e e) ms r' g')
     (hfit : ∀ ev ∈ ms, ev.type = mds_PAT → ev.arg < 256) :
-    SemOK nS nM pf seq base mj (hasTopBreak f) items r ms r' ∧ r' < 65536 ∧ g' = g := by
+    SemOK M nS nM R pf seq base mj (hasTopBreak f) items r ms r' ∧ r' < 65536 ∧ g' = g := by
   match f, hcl, hev, hexp, hem with
   | [], _, _, hexp, hem =>
     have hx : items = [] := by simpa [Expand.expL] using hexp.symm
@@ -921,20 +1252,23 @@ theorem semL (hH : CallH pf m seq base mj call Q) (f : List Tree.Node) (hcl : cl
     simp only [flattenL, List.map_nil] at hem
     obtain ⟨h1, h2, h3⟩ := emits_nil hem
     subst h1 h2 h3
-    exact ⟨SemOK.nil nS nM pf seq base mj r', hr, rfl⟩
+    exact ⟨SemOK.nil M nS nM R pf seq base mj r', hr, rfl⟩
   | n :: ns, hcl, hev, hexp, hem =>
     rw [Refine.expL_cons] at hexp
     obtain ⟨x, y, hx, hy, rfl⟩ := seq_ok hexp
     rw [Tree.flattenL_cons, List.map_append] at hem
     obtain ⟨ms1, r1, g1, ms2, he1, he2, rfl⟩ := emits_append _ _ hem
-    obtain ⟨s1, hr1, hg1⟩ := semN hH n hcl.1 (fun e he => hev e (by rw [Tree.flattenL_cons]; simp [he])) d il x hx r g ms1 r1 g1 hr he1
+    have hnnd : ∀ e ∈ flattenN n, e.type ≠ ev_DRUM_MODE :=
+      fun e he => (hev e (by rw [Tree.flattenL_cons]; simp [he])).2.2.2.2.2
+    rw [dAfterL_const M.dm _ hnnd] at he2
+    obtain ⟨s1, hr1, hg1⟩ := semN hH hD n hcl.1 (fun e he => hev e (by rw [Tree.flattenL_cons]; simp [he])) d il x hx r g ms1 r1 g1 hr he1
       (fun ev hev => hfit ev (by simp [hev]))
     obtain rfl : g = g1 := hg1.symm
-    obtain ⟨s2, hr2, hg2⟩ := semL hH ns hcl.2 (fun e he => hev e (by rw [Tree.flattenL_cons]; simp [he])) d il y hy r1 g ms2 r' g' hr1 he2
+    obtain ⟨s2, hr2, hg2⟩ := semL hH hD ns hcl.2 (fun e he => hev e (by rw [Tree.flattenL_cons]; simp [he])) d il y hy r1 g ms2 r' g' hr1 he2
       (fun ev hev => hfit ev (by simp [hev]))
     obtain rfl : g = g' := hg2.symm
     rw [hasTopBreak_cons]
-    exact ⟨s1.append nS nM pf seq base mj s2, hr2, rfl⟩
+    exact ⟨s1.append M nS nM R pf seq base mj s2, hr2, rfl⟩
 termination_by 2 * (flattenL f).length + 1
 decreasing_by
   all_goals simp_wf
